@@ -111,8 +111,13 @@ def bounded_stack_cases(seed, n):
     rng = random.Random(seed)
     pool = [c for c in walklib.gen_cases(seed, n, stack=filter_stack, bounds="none", mode="p", link="f") if c.labels["base"] in ("root", "subdir")]
     pool += [c for c in walklib.gen_cases(seed + 1, n // 2, stack=same_dir_stack, bounds="none", mode="p", link="f") if c.labels["base"] in ("root", "subdir")]
-    for c in pool:
-        out.append(c.clone(mx=str(rng.choice([1, 1, 2, 2, 3]))))
+    for j, c in enumerate(pool):
+        if j % 3 == 2:
+            # a MINIMUM depth: entries above it are not fed to any layer, so their names have no verdict
+            a = rng.choice([1, 1, 2])
+            out.append(c.clone(mn=str(a), mx=rng.choice(["-", "-", str(a + 1), str(a + 2)])))
+        else:
+            out.append(c.clone(mx=str(rng.choice([1, 1, 2, 2, 3]))))
     return out
 
 
@@ -140,8 +145,15 @@ def expected(c):
     mx = int(c.mx) if getattr(c, "mx", "-") not in ("-", None, "") and str(c.mx).isdigit() else None
     def rel_depth(p):
         return 0 if p == base else len([x for x in p[len(base.rstrip("/")):].strip("/").split("/") if x])
+    mn = int(c.mn) if getattr(c, "mn", "-") not in ("-", None, "") and str(c.mn).isdigit() else None
     for p, k, d in entries:
         if mx is not None and rel_depth(p) > mx:
+            continue
+        if mn is not None and rel_depth(p) < mn and not (link_below is not None and p.startswith(link_below + "/")):
+            # above the minimum depth: the traversal descends but does not yield the entry, so no layer is fed it and no
+            # verdict can discard it (a link read as a file still hides what lies behind it)
+            if k.startswith("l") and c.link != "t":
+                link_below = p
             continue
         if skip_below is not None and p.startswith(skip_below + "/"):
             continue
